@@ -45,8 +45,12 @@ class V3Config:
 
 
 class Agent:
-    def __init__(self, db=None, table=None, bulk_policy=None, v3=None, budget=None, hook=None, mitm=None, form="min"):
+    def __init__(self, db=None, table=None, bulk_policy=None, v3=None, budget=None, hook=None, mitm=None, form="min", volatile=False):
         self.db = sorted((tuple(o), v) for o, v in (db or []))
+        # volatile: every object is a counter the agent evaluates once per binding (two bindings of one
+        # response naming the same instance carry different values) — still a conformant agent
+        self.volatile = volatile
+        self._ticks = 1000
         self.table = table  # adversarial: {oid_tuple or (oid_tuple, k): oid_tuple | None}
         self.bulk_policy = bulk_policy or {}
         self.v3 = v3
@@ -76,6 +80,9 @@ class Agent:
         i = bisect.bisect_right(self._keys, oid)
         if i < len(self.db):
             o, v = self.db[i]
+            if self.volatile:
+                self._ticks += 1
+                v = ["counter32", self._ticks]
             return (list(o), v)
         return (list(oid), EOM)
 
